@@ -15,4 +15,6 @@ for v in checkptr race asan; do
   esac
 done
 wait
+# self-validation of the reference Avro implementation against the BigQuery-written files shipped with the library
+"$VGO" test -count=1 ./refavro > ../.work/refavro_selftest.log 2>&1 || { echo "refavro self-test failed"; cat ../.work/refavro_selftest.log; exit 1; }
 echo "setup ok: $(ls ../bin | tr '\n' ' ')"
